@@ -2,7 +2,7 @@ SPECIFICATION Spec
 CONSTANTS
   Fact = {"A", "B"}
   Signer = {1, 2}
-  MaxAdd = 2
+  MaxAdd = 3
   MaxReSet = 0
   MaxCalls = 3
   Limits = {5}
@@ -10,8 +10,7 @@ CONSTANTS
   Impl = "fixed"
   Sym = TRUE
   NCallers = 2
-  Removal = "abort"
-  Emit = "all"
-INVARIANTS R6ok
-VIEW View
+  Removal = "skip"
+  Emit = "terminal"
+INVARIANTS TypeOK Gone R0ok R1ok R2ok R3ok R4ok R6ok
 CHECK_DEADLOCK FALSE
